@@ -12,7 +12,8 @@
    an unbuffered channel.  close(queue) makes parked senders panic.
 
    Program followed (intended behaviour; see Appendix B of DESIGN.md):
-     Execute(r):  start(); if state != Running {return ErrExecutorNotRunning}; queue <- r; return nil
+     Execute(r):  start(); guard.RLock(); defer guard.RUnlock();
+                  if state != Running {return ErrExecutorNotRunning}; queue <- r; return nil
      start():     loop { switch state { Init: if CAS(Init,Started) { spawn nw workers; Set(Running); return }
                                         Started: yield (another caller is spawning the workers)
                                         Running: return
@@ -20,7 +21,10 @@
      worker():    loop { select { r := <-queue: run(r) | <-done: drain: loop { select { r := <-queue: run(r)
                                                                                     default: wg.Done(); return } } } }
      run(r):      defer CatchPanic(); if err := r.Run(); err != nil { log }
-     Shutdown():  if !CAS(Running,Shutdown) {return}; close(done); wg.Wait(); close(queue); Set(Terminated) *)
+     Shutdown():  guard.Lock(); ok := CAS(Running,Shutdown); guard.Unlock(); if !ok {return};
+                  close(done); wg.Wait(); close(queue); Set(Terminated)
+   guard is a sync.RWMutex: Lock() first announces the writer (from then on RLock() blocks) and then
+   waits until the readers that hold the lock have released it. *)
 From Coq Require Import List Arith Bool.
 Import ListNotations.
 
@@ -30,12 +34,15 @@ Inductive res := ROk | RErr | RPanic.                     (* how an Execute call
 Inductive sst :=                                          (* program counter of one Execute call *)
 | SNone                                                   (* not called (yet) *)
 | SGet | SCas | SSpawn | SSetRun                          (* inside start() *)
-| SCheck                                                  (* the state check after start() *)
-| SPark                                                   (* about to send on the queue *)
-| SParked                                                 (* value handed to the channel, waiting for room *)
+| SCheck                                                  (* guard.RLock() and the state check after start() *)
+| SPark                                                   (* (holds the read lock) about to send on the queue *)
+| SParked                                                 (* (holds the read lock) value handed to the channel, waiting for room *)
 | SRet (r : res).                                         (* returned *)
 Inductive wst := WIdle | WBusy (t : nat) | WDrain | WDBusy (t : nat) | WExited.
-Inductive shst := ShIdle | ShClose | ShWait | ShCloseQ | ShSetTerm | ShDone.
+Inductive shst :=
+| ShIdle
+| ShLocking               (* guard.Lock() announced, waiting for the readers to leave *)
+| ShClose | ShWait | ShCloseQ | ShSetTerm | ShDone.
 
 Record st := mk {
   ph : phase;
@@ -75,6 +82,9 @@ Definition is_exited (w : wst) : bool := match w with WExited => true | _ => fal
 Definition busy1 (w : wst) : list nat :=
   match w with WBusy t => [t] | WDBusy t => [t] | _ => [] end.
 Definition busy (l : list wst) : list nat := flat_map busy1 l.
+
+Definition is_reader (x : sst) : bool := match x with SPark | SParked => true | _ => false end.
+Definition is_locking (x : shst) : bool := match x with ShLocking => true | _ => false end.
 
 Definition phase_eqb (a b : phase) : bool :=
   match a, b with
@@ -153,7 +163,8 @@ Definition step (o : nat -> outcome) (s : st) (c : choice) : option st :=
       | SSpawn => Some (set_sub (set_ws s (repeat WIdle (nw s))) t SSetRun)
       | SSetRun => Some (set_sub (set_ph s PRunning) t SCheck)
       | SCheck =>
-          if phase_eqb (ph s) PRunning then Some (set_sub s t SPark)
+          if is_locking (sh s) then None                      (* RLock() blocks: a writer is waiting *)
+          else if phase_eqb (ph s) PRunning then Some (set_sub s t SPark)
           else Some (set_sub s t (SRet RErr))
       | SPark =>
           if closed s then Some (set_sub s t (SRet RPanic))   (* send on closed channel *)
@@ -192,8 +203,11 @@ Definition step (o : nat -> outcome) (s : st) (c : choice) : option st :=
   | Shut =>
       match sh s with
       | ShIdle =>
-          if phase_eqb (ph s) PRunning then Some (set_sh (set_ph s PShutdown) ShClose)
-          else Some s                                 (* CAS fails: Shutdown returns at once *)
+          if phase_eqb (ph s) PRunning then Some (set_sh s ShLocking)   (* guard.Lock() begins *)
+          else Some s                                 (* nobody holds the lock; CAS fails: Shutdown returns *)
+      | ShLocking =>                                  (* the lock is free once no Execute holds it: CAS *)
+          if forallb (fun t => negb (is_reader (subs s t))) (seq 0 (next s))
+          then Some (set_sh (set_ph s PShutdown) ShClose) else None
       | ShClose => Some (set_sh (set_dn s) ShWait)
       | ShWait => if forallb is_exited (ws s) then Some (set_sh s ShCloseQ) else None   (* wg.Wait() *)
       | ShCloseQ => Some (close_queue s)
